@@ -62,17 +62,17 @@ func (area) Generate(r *rng.R, thorough bool, index int) json.RawMessage {
 		n = 40 + r.Intn(160)
 	}
 	h := history{Digests: 1 + r.Intn(maxDigests)}
-	if r.Chance(40) {
+	if r.Chance(50) {
 		h.Digests = 1 + r.Intn(2)
 	}
 	for i := 0; i < n; i++ {
 		var o op
 		switch x := r.Intn(100); {
-		case x < 30:
+		case x < 27:
 			o = op{K: "get", D: r.Intn(h.Digests)}
-		case x < 42:
+		case x < 40:
 			o = op{K: "read", I: r.Intn(4), Err: r.Chance(5)}
-		case x < 68:
+		case x < 62:
 			o = op{K: "put", I: r.Intn(6), Err: r.Chance(10)}
 		default:
 			o = op{K: "rel", I: r.Intn(4), Dirty: r.Chance(60)}
